@@ -231,6 +231,15 @@ func (ww *conversionVisitor) visitObjectNode(node *sourcewalk.ObjectNode) {
 				ww.addError(node.Source, err)
 			}
 
+			if propertyDesc != nil && propertyDesc.GetProto3Optional() {
+				// proto3 'optional' is carried by a synthetic oneof holding
+				// only this field; without it the field has no presence
+				propertyDesc.OneofIndex = gl.Ptr(int32(len(message.descriptor.OneofDecl)))
+				message.descriptor.OneofDecl = append(message.descriptor.OneofDecl, &descriptorpb.OneofDescriptorProto{
+					Name: gl.Ptr("_" + propertyDesc.GetName()),
+				})
+			}
+
 			// Take the index (prior to append len == index), not the field number
 			locPath := []int32{2, int32(len(message.descriptor.Field))}
 			message.comment(locPath, node.Schema.Description)
